@@ -351,6 +351,20 @@ def run(case, out):
                     if gotp != expp:
                         out.fail("c10.vector_positions", {"doc": i, "got": str(gotp)[:200], "expected": str(expp)[:200]})
                         return
+                # weights: the transposed posting weights (the document boost multiplies the posting weight only
+                # after the vector has been cut, so documents with a boost are not compared here)
+                if d["boost"] == 1.0:
+                    fbv = case["field_boost"]
+                    gotw = dict((t.decode("utf8") if isinstance(t, bytes) else t, v)
+                                for t, v in reader.vector_as("weight", i, "f"))
+                    expw = dict((t, f32(fbv if vname == "Existence" else
+                                        sum(tok[4] for tok in d["tokens"] if tok[0] == t) * fbv)) for t in terms)
+                    if sorted(gotw) != sorted(expw) or any(not close32(gotw[t], expw[t]) for t in expw):
+                        out.fail("c10.vector_weight", {"doc": i, "got": str(sorted(gotw.items()))[:200],
+                                                       "expected": str(sorted(expw.items()))[:200], "vformat": vname})
+                        return
+                else:
+                    out.exclude("vector_weight_of_boosted_document")
                 if vname != "Existence":
                     gotf = dict((t.decode("utf8") if isinstance(t, bytes) else t, v)
                                 for t, v in reader.vector_as("frequency", i, "f"))
